@@ -56,6 +56,11 @@ CLAIMED['C17'] = dict(
         'Correspondence: exhaustive tiny grids and random cases (int64/uint64/float64 times, spikes on chunk bounds, unknown/repeated requested ids, subset on/off) against the real SpikeSelector; the Lean executable decides the predicate on the real random output.',
    note='The contract of np.random.choice(replace=False) is a hypothesis; NumPy global RNG seeded per case.',
    tech='Lean 4 theorems quantified over all admissible choice functions + correspondence in which Lean decides the spec predicate on the real output', ref='§5 C17')
+CLAIMED['C03'] = dict(
+   text='Theorems (cells of any type with a zero; any recording, spike position, window length incl. longer than the recording, channel lists with -1): direct extraction = the zero-padded raw window; for chunk intervals that tile the recording (C16) and sorted spikes, chunk-by-chunk iteration yields exactly one window per spike in order wherever spikes fall relative to chunk boundaries; the exported file loads with the declared shape holding the scaled windows; store lookup returns the stored window column for stored channels, zeros otherwise, for queries in any order. '
+        'Correspondence: real extract_waveforms / export_waveforms + np.load / get_spike_waveforms / TemplateModel.get_waveforms over lengths, channels, int16/float32/float64, array/flat multi-file/cbin, every chunk size, signed and unsigned spike dtypes, boundaries, -1 channels as arrays and lists, unit factors.',
+   note='.npy byte layout / np.load are transport; factor multiplication exact on generated values; sample subtraction modelled after conversion to int (as the fixed code does).',
+   tech='Lean 4 theorems (index-wise window equality, chain invariant over chunk intervals, flatten/chunk lemmas) + differential correspondence against /repo', ref='§5 C03')
 REASONS = {}
 
 checks = []
